@@ -22,43 +22,18 @@ RULE = ("Hypothesis (one binary draw decoded) generates projects of 1..5 files x
 ASSUME = ["fake git (fakevcs/git) stands in for git: what is verified is the argv bumpver issues",
           "one fault at a time (single-fault enumeration), not combinations"]
 
-LEGACY = [("{pycalver}", "v202010.1001-beta", "202010.1001b0"), ("{pycalver}", "v201812.0033", "201812.33"),
-          ("{semver}", "1.2.3", "1.2.3"), ("v{year}{month}{build}{release}", "v202011.1002-rc", "202011.1002rc0"),
-          ("{year}{build}{release}", "2020.1003", "2020.1003")]
-
-
 def build(d):
     legacy = d.chance(1, 4)
     if legacy:
-        vp, old, pep = d.choice(LEGACY)
-        nodes, state = None, None
+        spec, flags, date = projgen.gen_legacy_project(d)
     else:
         nodes, state, old = grammar.gen_pattern_and_state(d, safe_seps=True)
         if nodes is None:
             return {"discard": state}
-    if legacy:
-        # fixed-text project: same layout generator, occurrences carry their text
-        fake_ast = [["part", "MAJOR"]]
-        spec = projgen.gen_project(d, fake_ast, grammar.state_from(dt.date(2020, 1, 1)), pep_shaped=True, max_files=5, max_patterns=3,
-                                   regimes=["lf", "lf", "crlf"], allow_partial=False, allow_glob=False)
-        for p in spec["patterns"]:
-            if p["kind"] == "pep":
-                p["text"] = p["d1"] + pep + p["d2"]
-            else:
-                p["kind"] = "version"
-                p["raw"] = projgen._esc(p["d1"]).replace("\\[", "[").replace("\\]", "]") + "{version}" + projgen._esc(p["d2"]).replace("\\[", "[").replace("\\]", "]")
-                p["text"] = p["d1"] + old + p["d2"]
-            p["ast"] = None
-            if p["kind"] == "pep":
-                p["raw"] = p["d1"] + "{pep440_version}" + p["d2"]
-        spec["pattern_text"] = vp
-        spec["old_text"] = old
-        spec["bystanders"] = []
-    else:
         spec = projgen.gen_project(d, nodes, state, pep_shaped=False, max_files=5, max_patterns=3, regimes=["lf", "lf", "crlf", "cr"],
                                    allow_partial=True)
-    spec["legacy"] = legacy
-    flags, date = ({"patch": legacy and vp == "{semver}"}, "2021-03-04") if legacy else projgen.gen_bump(d, nodes, state)
+        spec["legacy"] = False
+        flags, date = projgen.gen_bump(d, nodes, state)
     return {"spec": spec, "flags": flags, "date": date, "commit": d.chance(1, 2), "tag": d.bool(), "fault_style": d.choice(["remove", "delimiter"])}
 
 
